@@ -224,6 +224,36 @@ def run_priorized(path, cat_rows, stage, regroup, record=None):
     return split_catalogue(found)
 
 
+EXT_COLS = ('ra', 'dec', 'peak_flux', 'a', 'b', 'pa', 'psf_a', 'psf_b', 'psf_pa')
+
+
+def write_external_catalogue(cat_rows, fname, how):
+    """a catalogue file as a third party would make it for --input: positions, fluxes, shapes and psf only.
+    how = 'nouuid': no uuid / island / source columns;  'masked': a uuid column whose cells are masked (fits / csv)"""
+    from astropy.table import MaskedColumn, Table
+    t = Table()
+    for c in EXT_COLS:
+        t[c] = [float(unf(r[c])) for r in cat_rows]
+    if how == 'masked':
+        t['island'] = [int(r['island']) for r in cat_rows]
+        t['source'] = [int(r['source']) for r in cat_rows]
+        t['uuid'] = MaskedColumn(['x' * 36] * len(cat_rows), mask=[True] * len(cat_rows))
+    if fname.endswith('.vot'):
+        from astropy.io.votable import from_table, writeto
+        writeto(from_table(t), fname)
+    else:
+        t.write(fname, overwrite=True)
+    return fname
+
+
+def run_priorized_file(path, fname, stage, regroup):
+    """priorized fitting with the input catalogue given as a FILE (the path aegean --input takes: load_table + table_to_source_list)"""
+    from AegeanTools import source_finder as sfm
+    sf = sfm.SourceFinder(log=quiet)
+    found = sf.priorized_fit_islands(path, catalogue=fname, stage=stage, rms=RMS, bkg=0.0, cores=1, doregroup=regroup)
+    return split_catalogue(found)
+
+
 def strip_uuid(rows):
     return [{k: v for k, v in r.items() if k != 'uuid'} for r in rows]
 
